@@ -1471,6 +1471,39 @@ pub fn run_c13(s: &mut Sink) {
         }
         s.done("whitespace: every gap x 8 blank strings (space, tab, LF, CR LF, CR, runs) for one instruction per operand form");
     }
+    // (5) whole programs: every control-flow skeleton (jumps, local calls, wide loads in every
+    // relative position) of up to 4 (5) slots, written out by the harness's own renderer
+    {
+        let nmax = if thorough { 5 } else { 4 };
+        for nslots in 1..=nmax {
+            for f in crate::isaeng::slot_choices(0, nslots, true) {
+                let idx = g;
+                g += 1;
+                if !s.take(idx) {
+                    continue;
+                }
+                let mut n = 0u64;
+                skeletons_from(nslots, f, &mut |sk| {
+                    let Some(p) = crate::isaeng::skeleton_program(sk) else { return };
+                    let mut lines = vec![];
+                    let mut k = 0;
+                    while k < p.len() {
+                        let hi = if p[k].opc == 0x18 { Some(p[k + 1].imm) } else { None };
+                        match asmref::render(&p[k], hi) {
+                            Some(t) => lines.push(t),
+                            None => return,
+                        }
+                        k += if hi.is_some() { 2 } else { 1 };
+                    }
+                    c13_check(s, &lines.join("\n"), &Some(isa::enc(&p)), "skeleton");
+                    n += 1;
+                });
+                s.count("evaluations", n);
+                s.count("distinct_nontrivial", n);
+            }
+        }
+        s.done(&format!("programs: control-flow skeletons of 1..={nmax} slots"));
+    }
     // empty source
     if s.take(g) {
         c13_check(s, "", &Some(vec![]), "empty");
